@@ -144,8 +144,10 @@ def upgrade_maybe (cfg : Config) (agg : AggOracle) (s : State) : SM State := do
   if s.fork = .deneb && atFork cfg.ELECTRA_FORK_EPOCH s then invalid "electra is not supported"
   pure s
 
-/-- `process_slots` including the in-place fork upgrades. Recursion on the number of slots. -/
-def process_slots (cfg : Config) (agg : AggOracle) (roots : RootOracle) (s : State) (slot : Nat) : SM State := do
+/-- `process_slots` including the in-place fork upgrades, with the epoch transition as a parameter (the specification's
+`process_epoch`, or the code-shaped pipeline for the model column). Recursion on the number of slots. -/
+def process_slots_with (epochFn : Config → AggOracle → State → SM State) (cfg : Config) (agg : AggOracle)
+    (roots : RootOracle) (s : State) (slot : Nat) : SM State := do
   require (s.slot < slot) "assert state.slot < slot"
   if cfg.SLOTS_PER_EPOCH = 0 then invalid "division by zero"
   let rec loop (n : Nat) (s : State) : SM State :=
@@ -154,11 +156,15 @@ def process_slots (cfg : Config) (agg : AggOracle) (roots : RootOracle) (s : Sta
     | n + 1 => do
       let s ← process_slot cfg roots s
       -- Process epoch on the start slot of the next epoch
-      let s ← if (s.slot + 1) % cfg.SLOTS_PER_EPOCH = 0 then process_epoch cfg agg s else pure s
+      let s ← if (s.slot + 1) % cfg.SLOTS_PER_EPOCH = 0 then epochFn cfg agg s else pure s
       let next_slot ← u64 (s.slot + 1) "slot"
       let s := { s with slot := next_slot }
       let s ← upgrade_maybe cfg agg s
       loop n s
   loop (slot - s.slot) s
+
+/-- `process_slots` -/
+def process_slots (cfg : Config) (agg : AggOracle) (roots : RootOracle) (s : State) (slot : Nat) : SM State :=
+  process_slots_with process_epoch cfg agg roots s slot
 
 end Zrnt.Beacon.Spec
